@@ -648,6 +648,140 @@ func skelTrace(p *packages.Package, fd *ast.FuncDecl) []string {
 	return out
 }
 
+// panicSites: every syntactic site in a package's non-test code whose safety rests on a guard or on
+// an invariant: index and slice expressions on slices / arrays / strings, single-value type
+// assertions, explicit panic calls, integer division by a non-constant, loops that are not range
+// loops (termination), channel operations, and directly recursive functions. One fact per site:
+// "<func>: <kind> <expression>". Line numbers are deliberately left out (harmless edits elsewhere in
+// the file must not disturb the inventory); the order is source order within a function.
+func panicSites(p *packages.Package) []string {
+	var out []string
+	for _, file := range p.Syntax {
+		name := fset.Position(file.Pos()).Filename
+		if strings.HasSuffix(name, "_test.go") {
+			continue
+		}
+		for _, d := range file.Decls {
+			fd, ok := d.(*ast.FuncDecl)
+			if !ok || fd.Body == nil {
+				continue
+			}
+			fn := fd.Name.Name
+			if fd.Recv != nil && len(fd.Recv.List) == 1 {
+				t := fd.Recv.List[0].Type
+				if st, ok := t.(*ast.StarExpr); ok {
+					t = st.X
+				}
+				fn = src(t) + "." + fn
+			}
+			okAssert := map[*ast.TypeAssertExpr]bool{}
+			ast.Inspect(fd.Body, func(n ast.Node) bool {
+				switch x := n.(type) {
+				case *ast.AssignStmt:
+					if len(x.Lhs) == 2 && len(x.Rhs) == 1 {
+						if ta, ok := x.Rhs[0].(*ast.TypeAssertExpr); ok {
+							okAssert[ta] = true
+						}
+					}
+				case *ast.ValueSpec:
+					if len(x.Names) == 2 && len(x.Values) == 1 {
+						if ta, ok := x.Values[0].(*ast.TypeAssertExpr); ok {
+							okAssert[ta] = true
+						}
+					}
+				case *ast.TypeSwitchStmt:
+					ast.Inspect(x.Assign, func(m ast.Node) bool {
+						if ta, ok := m.(*ast.TypeAssertExpr); ok {
+							okAssert[ta] = true
+						}
+						return true
+					})
+				}
+				return true
+			})
+			add := func(kind string, n ast.Node) { out = append(out, fn+": "+kind+" "+src(n)) }
+			ast.Inspect(fd.Body, func(n ast.Node) bool {
+				switch x := n.(type) {
+				case *ast.IndexExpr:
+					if tv, ok := p.TypesInfo.Types[x.X]; ok {
+						switch u := tv.Type.Underlying().(type) {
+						case *types.Slice, *types.Array:
+							add("index", x)
+						case *types.Basic:
+							if u.Info()&types.IsString != 0 {
+								add("index", x)
+							}
+						case *types.Pointer:
+							if _, ok := u.Elem().Underlying().(*types.Array); ok {
+								add("index", x)
+							}
+						}
+					}
+				case *ast.SliceExpr:
+					add("slice", x)
+				case *ast.TypeAssertExpr:
+					if x.Type != nil && !okAssert[x] {
+						add("assert", x)
+					}
+				case *ast.CallExpr:
+					if id, ok := x.Fun.(*ast.Ident); ok {
+						if _, isBuiltin := p.TypesInfo.Uses[id].(*types.Builtin); isBuiltin {
+							switch id.Name {
+							case "panic":
+								add("panic", x)
+							case "close":
+								add("close", x)
+							}
+						}
+						if obj, ok := p.TypesInfo.Uses[id].(*types.Func); ok && obj.Name() == fd.Name.Name && fd.Recv == nil && obj.Pkg() == p.Types {
+							add("recursive-call", x)
+						}
+					}
+				case *ast.BinaryExpr:
+					if x.Op == token.QUO || x.Op == token.REM {
+						if tv, ok := p.TypesInfo.Types[x.Y]; ok && tv.Value == nil {
+							if b, ok := tv.Type.Underlying().(*types.Basic); ok && b.Info()&types.IsInteger != 0 {
+								add("div", x)
+							}
+						}
+					}
+				case *ast.AssignStmt:
+					// an error result thrown away: what comes back with it may be nil
+					if len(x.Rhs) == 1 && len(x.Lhs) >= 2 {
+						if call, ok := x.Rhs[0].(*ast.CallExpr); ok {
+							if tv, ok := p.TypesInfo.Types[call]; ok {
+								if tup, ok := tv.Type.(*types.Tuple); ok && tup.Len() == len(x.Lhs) {
+									for k := 0; k < tup.Len(); k++ {
+										if id, ok := x.Lhs[k].(*ast.Ident); ok && id.Name == "_" && tup.At(k).Type().String() == "error" {
+											add("discard-error", call.Fun)
+										}
+									}
+								}
+							}
+						}
+					}
+				case *ast.ForStmt:
+					c := "forever"
+					if x.Cond != nil {
+						c = src(x.Cond)
+					}
+					out = append(out, fn+": loop "+c)
+				case *ast.SendStmt:
+					add("send", x)
+				case *ast.RangeStmt:
+					if tv, ok := p.TypesInfo.Types[x.X]; ok {
+						if _, isChan := tv.Type.Underlying().(*types.Chan); isChan {
+							add("range-chan", x.X)
+						}
+					}
+				}
+				return true
+			})
+		}
+	}
+	return out
+}
+
 func uniq(s []string) []string {
 	var out []string
 	for i, v := range s {
@@ -925,6 +1059,14 @@ func main() {
 	emit("ocsp_CheckStatus_conc", concFacts(ro, mustFunc(ro, "CheckStatus")))
 	emit("revocation_ValidateContext_skel", skelTrace(rev, mustFunc(rev, "revocation.ValidateContext")))
 	emit("ocsp_CheckStatus_skel", skelTrace(ro, mustFunc(ro, "CheckStatus")))
+	for _, rel := range []string{"signature", "signature/jws", "signature/cose", "signature/internal/base", "x509", "revocation",
+		"revocation/ocsp", "revocation/crl", "revocation/internal/ocsp", "revocation/internal/crl", "revocation/internal/x509util",
+		"revocation/result", "revocation/purpose", "internal/timestamp", "internal/algorithm", "internal/oid", "internal/slices"} {
+		if _, ok := pkgs[rel]; !ok {
+			continue
+		}
+		emit("panicSites_"+strings.NewReplacer("/", "_").Replace(rel), panicSites(pkg(rel)))
+	}
 	emit("timestamp_revocationResult", guardFacts(mustFunc(pkg("internal/timestamp"), "revocationResult")))
 	sw("end NotationCore.Generated.Shape")
 
